@@ -1042,40 +1042,47 @@ void vfa_free(void *p) {
  * intra-object overflow that red-zone sanitizers cannot see (digit 7 into a [7][7] table lands in the next row). */
 #ifdef H3_VERIF_HOOKS
 #include "h3VerifHooks.h"
+/* strict = (row, col) are the very indexes the library uses on the table, so a value outside the dimensions is an
+ * out-of-bounds look-up; otherwise they only *describe* the look-up's context (leading digit, rotation count, ...) and
+ * a value outside the expected range (e.g. leading digit 7 of an invalid cell) is merely counted. */
 static const struct {
     const char *name;
-    int rows, cols;
+    int rows, cols, strict;
 } VT[H3VT_COUNT] = {
-    [H3VT_BASE_CELL_NEIGHBORS] = {"baseCellNeighbors@h3NeighborRotations", 122, 7},
-    [H3VT_NEW_DIGIT_II] = {"NEW_DIGIT_II@h3NeighborRotations", 7, 7},
-    [H3VT_NEW_DIGIT_III] = {"NEW_DIGIT_III@h3NeighborRotations", 7, 7},
-    [H3VT_LOCALIJ_BC_ROTS] = {"baseCellNeighbor60CCWRots@cellToLocalIjk", 122, 7},
-    [H3VT_LOCALIJ_BC_ROTS_INV] = {"baseCellNeighbor60CCWRots@localIjkToCell", 122, 7},
-    [H3VT_FAILED_DIRECTIONS] = {"FAILED_DIRECTIONS@cellToLocalIjk", 7, 7},
-    [H3VT_PENTAGON_ROTATIONS] = {"PENTAGON_ROTATIONS@cellToLocalIjk", 7, 7},
-    [H3VT_PENTAGON_ROTATIONS_REV] = {"PENTAGON_ROTATIONS_REVERSE@localIjkToCell", 7, 7},
-    [H3VT_PENTAGON_ROTATIONS_REV_POLAR] = {"PENTAGON_ROTATIONS_REVERSE_POLAR@localIjkToCell", 7, 7},
-    [H3VT_PENTAGON_ROTATIONS_REV_NONPOLAR] = {"PENTAGON_ROTATIONS_REVERSE_NONPOLAR@localIjkToCell", 7, 7},
-    [H3VT_FACE_IJK_BASE_CELLS] = {"faceIjkBaseCells@_faceIjkToBaseCell", 20, 27},
-    [H3VT_BASE_CELL_FACE_ROT] = {"faceIjkBaseCells@_baseCellToCCWrot60(baseCell,face)", 122, 20},
-    [H3VT_OVERAGE_QUADRANT] = {"faceNeighbors@_adjustOverageClassII", 20, 4},
-    [H3VT_OVERAGE_PENT_LEADING4] = {"pentLeading4@_adjustOverageClassII(face)", 20, 1},
-    [H3VT_OVERAGE_RES] = {"maxDimByCIIres@_adjustOverageClassII(res,substrate)", 17, 2},
-    [H3VT_ADJ_FACE_DIR_PENT] = {"adjacentFaceDir@_faceIjkPentToCellBoundary", 20, 20},
-    [H3VT_ADJ_FACE_DIR_HEX] = {"adjacentFaceDir@_faceIjkToCellBoundary", 20, 20},
-    [H3VT_PENT_DIRECTION_FACES] = {"pentagonDirectionFaces@vertexRotations(pentagon,digit*2+offHomeFace)", 12, 14},
-    [H3VT_VERTEX_NUM_FOR_DIRECTION] = {"directionToVertexNum@vertexNumForDirection(pent*7+dir,rotations)", 14, 6},
-    [H3VT_DIRECTION_FOR_VERTEX_NUM] = {"vertexNumToDirection@directionForVertexNum(pent*6+vertexNum,rotations)", 12, 6},
+    [H3VT_BASE_CELL_NEIGHBORS] = {"baseCellNeighbors@h3NeighborRotations", 122, 7, 1},
+    [H3VT_NEW_DIGIT_II] = {"NEW_DIGIT_II@h3NeighborRotations", 7, 7, 1},
+    [H3VT_NEW_DIGIT_III] = {"NEW_DIGIT_III@h3NeighborRotations", 7, 7, 1},
+    [H3VT_LOCALIJ_BC_ROTS] = {"baseCellNeighbor60CCWRots@cellToLocalIjk", 122, 7, 1},
+    [H3VT_LOCALIJ_BC_ROTS_INV] = {"baseCellNeighbor60CCWRots@localIjkToCell", 122, 7, 1},
+    [H3VT_FAILED_DIRECTIONS] = {"FAILED_DIRECTIONS@cellToLocalIjk", 7, 7, 1},
+    [H3VT_PENTAGON_ROTATIONS] = {"PENTAGON_ROTATIONS@cellToLocalIjk", 7, 7, 1},
+    [H3VT_PENTAGON_ROTATIONS_REV] = {"PENTAGON_ROTATIONS_REVERSE@localIjkToCell", 7, 7, 1},
+    [H3VT_PENTAGON_ROTATIONS_REV_POLAR] = {"PENTAGON_ROTATIONS_REVERSE_POLAR@localIjkToCell", 7, 7, 1},
+    [H3VT_PENTAGON_ROTATIONS_REV_NONPOLAR] = {"PENTAGON_ROTATIONS_REVERSE_NONPOLAR@localIjkToCell", 7, 7, 1},
+    [H3VT_FACE_IJK_BASE_CELLS] = {"faceIjkBaseCells@_faceIjkToBaseCell", 20, 27, 1},
+    [H3VT_BASE_CELL_FACE_ROT] = {"faceIjkBaseCells@_baseCellToCCWrot60(baseCell,face)", 122, 20, 0},
+    [H3VT_OVERAGE_QUADRANT] = {"faceNeighbors@_adjustOverageClassII", 20, 4, 1},
+    [H3VT_OVERAGE_PENT_LEADING4] = {"pentLeading4@_adjustOverageClassII(face)", 20, 1, 0},
+    [H3VT_OVERAGE_RES] = {"maxDimByCIIres@_adjustOverageClassII(res,substrate)", 17, 2, 1},
+    [H3VT_ADJ_FACE_DIR_PENT] = {"adjacentFaceDir@_faceIjkPentToCellBoundary", 20, 20, 1},
+    [H3VT_ADJ_FACE_DIR_HEX] = {"adjacentFaceDir@_faceIjkToCellBoundary", 20, 20, 1},
+    [H3VT_PENT_DIRECTION_FACES] = {"pentagonDirectionFaces@vertexRotations(pentagon,digit*2+offHomeFace)", 12, 16, 0},
+    [H3VT_VERTEX_NUM_FOR_DIRECTION] = {"directionToVertexNum@vertexNumForDirection(pent*7+dir,rotations)", 14, 6, 0},
+    [H3VT_DIRECTION_FOR_VERTEX_NUM] = {"vertexNumToDirection@directionForVertexNum(pent*6+vertexNum,rotations)", 12, 6, 0},
 };
 #define VT_MAXBYTES ((122 * 20 + 7) / 8)
 static unsigned char vt_bits[H3VT_COUNT][VT_MAXBYTES];
-static long vt_calls, vt_oob;
+static long vt_calls, vt_oob, vt_desc_out;
 static int vt_oob_t = -1, vt_oob_r, vt_oob_c;
 static char vt_oob_case[256];
 void h3VerifHit(int t, int row, int col) {
     __atomic_fetch_add(&vt_calls, 1, __ATOMIC_RELAXED);
     if (t < 0 || t >= H3VT_COUNT) return;
     if (row < 0 || row >= VT[t].rows || col < 0 || col >= VT[t].cols) {
+        if (!VT[t].strict) {
+            __atomic_fetch_add(&vt_desc_out, 1, __ATOMIC_RELAXED);
+            return;
+        }
         if (__atomic_fetch_add(&vt_oob, 1, __ATOMIC_RELAXED) == 0) {
             vt_oob_t = t, vt_oob_r = row, vt_oob_c = col;
             snprintf(vt_oob_case, sizeof vt_oob_case, "%s", vf_case_get());
@@ -1103,6 +1110,7 @@ static void vt_dump(void) {
         fprintf(VF.log, "\"}\n");
     }
     fprintf(VF.log, "{\"t\":\"stat\",\"k\":\"tablehook.lookups\",\"v\":%ld}\n", vt_calls);
+    if (vt_desc_out) fprintf(VF.log, "{\"t\":\"stat\",\"k\":\"tablehook.descriptor_out_of_range\",\"v\":%ld}\n", vt_desc_out);
 }
 #else
 static void vt_dump(void) {}
